@@ -369,6 +369,10 @@ class Statement(ConditionalStatementBase):
 
 
 class Nop(NopBase):
+    # A no-op is unconditional. (The interpreter evaluates the condition of
+    # every statement it visits.)
+    condition = True
+
     exec_method = intern("exec_Nop")
 
 
